@@ -97,10 +97,15 @@ Definition bufRead (n : N) : M (list N * N) := fun b al =>
 Definition dumpN (n : N) : M unit := fun b al =>
   if len (firstn (N.to_nat n) b) =? n then (Ok tt (skipn (N.to_nat n) b), al) else (Err, al).
 
+(* n, err := buf.Read(p); if err != nil { error }; if n < len(p) (or n != len(p)) { error } *)
+Definition bufReadFull (n : N) : M (list N) :=
+  '(p, k) <- bufRead n ;;
+  _ <- guard (negb (k <? n)) ;;
+  ret p.
+
 (* read4BytesAsUint32: buf.Read into [4]byte, error unless 4 bytes were read *)
 Definition read4 : M N :=
-  '(p, k) <- bufRead 4 ;;
-  _ <- guard (k =? 4) ;;
+  p <- bufReadFull 4 ;;
   ret (nth 0 p 0 * 16777216 + nth 1 p 0 * 65536 + nth 2 p 0 * 256 + nth 3 p 0).
 
 (* run m on the byte slice sub (a bytes.NewBuffer(sub)); the outer buffer is untouched *)
@@ -115,8 +120,7 @@ Definition runSub {A} (sub : list N) (m : M A) : M A := fun b al =>
 (* b := make([]byte, L); n, err := buf.Read(b); if err != nil || n != L { error }; inner(b) *)
 Definition subparse {A} (L : N) (inner : M A) : M A :=
   _ <- alloc L ;;
-  '(sub, k) <- bufRead L ;;
-  _ <- guard (k =? L) ;;
+  sub <- bufReadFull L ;;
   runSub sub inner.
 
 (* n times m, results in order (the count-driven for loops) *)
@@ -252,10 +256,9 @@ Definition decodeNLRI (fuel : nat) (afi safi : N) (addPath : bool) : M (nlri * N
   '(labels, pfxLen, consumed) <-
      (if safi =? 4 then decodeLabels fuel pfxLen consumed [] else ret ([], pfxLen, consumed)) ;;
   let numBytes := bytesInAddr pfxLen in
-  _ <- alloc numBytes ;;
-  '(bytes, r) <- bufRead numBytes ;;
-  let consumed := (consumed + r) mod 256 in
-  _ <- guard (negb (r <? numBytes)) ;;
+  _ <- alloc numBytes ;;                                     (* bytes := make([]byte, numBytes) *)
+  bytes <- bufReadFull numBytes ;;                           (* r == numBytes from here on *)
+  let consumed := (consumed + numBytes) mod 256 in
   pfx <- deserializePrefix bytes pfxLen afi ;;
   ret (mkNLRI pid labels pfx, consumed).
 
@@ -275,9 +278,7 @@ Fixpoint decodeNLRIs (fuel : nat) (length p afi safi : N) (addPath : bool) (acc 
 
 (* deserializeMultiProtocolReachNLRI, run on the buffer holding the attribute value b (len b = L).
    `variable` is the rest of that buffer after AFI, SAFI and the next-hop length. *)
-Definition deserializeMPReach (fuel : nat) (o : options) (L : N) : M attrval :=
-  _ <- guard (4 <? L) ;;                                     (* variableLength = len(b)-4 <= 0: error *)
-  _ <- alloc (L - 4) ;;                                      (* variable := make([]byte, variableLength) *)
+Definition deserializeMPReachBody (fuel : nat) (o : options) : M attrval :=
   afi <- readU16 ;; safi <- readByte ;; nhl <- readByte ;;
   variable <- getBuf ;;
   let budget := len variable in
@@ -298,16 +299,24 @@ Definition deserializeMPReach (fuel : nat) (o : options) (L : N) : M attrval :=
       ret (AVMPReach afi safi nh nl)
   end.
 
+Definition deserializeMPReach (fuel : nat) (o : options) (L : N) : M attrval :=
+  _ <- guard (4 <? L) ;;                                     (* variableLength = len(b)-4 <= 0: error *)
+  _ <- alloc (L - 4) ;;                                      (* variable := make([]byte, variableLength) *)
+  deserializeMPReachBody fuel o.
+
 (* deserializeMultiProtocolUnreachNLRI *)
-Definition deserializeMPUnreach (fuel : nat) (o : options) (L : N) : M attrval :=
-  _ <- guard (negb (L <? 3)) ;;                              (* prefixesLength = len(b)-3 < 0: error *)
-  _ <- alloc (L - 3) ;;                                      (* nlris := make([]byte, prefixesLength) *)
+Definition deserializeMPUnreachBody (fuel : nat) (o : options) : M attrval :=
   afi <- readU16 ;; safi <- readByte ;;
   rest <- getBuf ;;
   if len rest =? 0 then ret (AVMPUnreach afi safi [])
   else
     nl <- decodeNLRIs fuel (len rest mod 65536) 0 afi safi (addPathFor o afi safi) [] ;;
     ret (AVMPUnreach afi safi nl).
+
+Definition deserializeMPUnreach (fuel : nat) (o : options) (L : N) : M attrval :=
+  _ <- guard (negb (L <? 3)) ;;                              (* prefixesLength = len(b)-3 < 0: error *)
+  _ <- alloc (L - 3) ;;                                      (* nlris := make([]byte, prefixesLength) *)
+  deserializeMPUnreachBody fuel o.
 
 (* ------------------------------------------------------------------ path attributes *)
 
@@ -474,8 +483,9 @@ Fixpoint decodeOptParams (fuel : nat) (optLen read : N) (acc : list optparam) : 
 
 Definition decodeOpen (fuel : nat) : M body :=
   version <- readByte ;; asn <- readU16 ;; hold <- readU16 ;; id <- readU32 ;; optLen <- readByte ;;
-  _ <- guard (version =? 4) ;;
+  _ <- guard (version =? 4) ;;                               (* validateOpen *)
   _ <- guard (negb (id =? 0)) ;;
+  _ <- guard (negb ((hold =? 1) || (hold =? 2))) ;;
   params <- decodeOptParams fuel optLen 0 [] ;;
   ret (BOpen (mkOpen version asn hold id optLen params)).
 
@@ -493,6 +503,9 @@ Definition decodeHeader : M (N * N) :=
   ty <- readByte ;;
   _ <- guard (negb (l <? 19) && negb (4096 <? l)) ;;
   _ <- guard (negb (4 <? ty) && negb (ty =? 0)) ;;
+  (* RFC 4271 6.1: OPEN >= 29, UPDATE >= 23, NOTIFICATION >= 21, KEEPALIVE = 19 *)
+  _ <- guard (negb (((ty =? 1) && (l <? 29)) || ((ty =? 2) && (l <? 23)) ||
+                    ((ty =? 3) && (l <? 21)) || ((ty =? 4) && negb (l =? 19)))) ;;
   ret (l, ty).
 
 Definition decodeBody (fuel : nat) (o : options) (ty l : N) : M body :=
